@@ -78,7 +78,7 @@ theorem negotiate_eq (rb : Option BlockValue) (ms tp M : Nat) :
             (min r.size (blockBudget ms tp M))
         | none =>
           if tp < blockBudget ms tp M then .ok none
-          else newBlock 0 true (blockBudget ms tp M) := by
+          else newBlock 0 true (min (blockBudget ms tp M) Consts.maximumBlockSize) := by
   unfold negotiate blockBudget
   simp only []
   by_cases h : M < ms + Consts.blockOptionsMaxLength - tp
@@ -104,7 +104,7 @@ theorem negotiate_never_panics (rb : Option BlockValue) (ms tp M : Nat) :
       · intro h; cases h
     · split
       · intro h; cases h
-      · rcases newBlock_cases 0 true (blockBudget ms tp M) with h | ⟨_, _, _, h⟩ <;> rw [h]
+      · rcases newBlock_cases 0 true (min (blockBudget ms tp M) Consts.maximumBlockSize) with h | ⟨_, _, _, h⟩ <;> rw [h]
         · unfold internal; intro h; cases h
         · intro h; cases h
 
@@ -126,7 +126,7 @@ theorem negotiate_err (rb : Option BlockValue) (ms tp M : Nat) (c : Option Respo
       · cases h
     · split at h
       · cases h
-      · rcases newBlock_cases 0 true (blockBudget ms tp M) with h' | ⟨_, _, _, h'⟩ <;> rw [h'] at h
+      · rcases newBlock_cases 0 true (min (blockBudget ms tp M) Consts.maximumBlockSize) with h' | ⟨_, _, _, h'⟩ <;> rw [h'] at h
         · exact hint c h
         · cases h
 
@@ -177,7 +177,7 @@ theorem negotiate_some (rb : Option BlockValue) (ms tp M : Nat) (b : BlockValue)
     · split at h
       · cases h
       · rename_i htp
-        rcases newBlock_cases 0 true (blockBudget ms tp M) with h' | ⟨h1, h2, h3, h'⟩ <;> rw [h'] at h
+        rcases newBlock_cases 0 true (min (blockBudget ms tp M) Consts.maximumBlockSize) with h' | ⟨h1, h2, h3, h'⟩ <;> rw [h'] at h
         · exact absurd h (internal_ne_ok _)
         · injection h with h
           injection h with h
@@ -185,7 +185,10 @@ theorem negotiate_some (rb : Option BlockValue) (ms tp M : Nat) (b : BlockValue)
           obtain ⟨l1, l2, l3, _⟩ := log_szx _ h1 h2
           refine ⟨⟨h3, l1⟩, rfl, ?_, ?_, ?_⟩
           · intro h16
-            exact l2 h16
+            have hmb : Consts.maximumBlockSize = 1024 := by decide
+            have := l2 (by omega)
+            rw [hbs]
+            omega
           · intro r' hr'; cases hr'
           · intro _
             exact ⟨rfl, rfl, by omega⟩
@@ -212,7 +215,7 @@ theorem negotiate_szx_le_6 (rb : Option BlockValue) (ms tp M : Nat) (b : BlockVa
         exact l4 (by omega)
     · split at h
       · cases h
-      · rcases newBlock_cases 0 true (blockBudget ms tp M) with h' | ⟨h1, h2, h3, h'⟩ <;> rw [h'] at h
+      · rcases newBlock_cases 0 true (min (blockBudget ms tp M) Consts.maximumBlockSize) with h' | ⟨h1, h2, h3, h'⟩ <;> rw [h'] at h
         · exact absurd h (internal_ne_ok _)
         · injection h with h
           injection h with h
@@ -266,7 +269,7 @@ theorem negotiate_none (ms tp M : Nat) (hms : tp ≤ ms) :
         refine ⟨?_, htp⟩
         unfold blockBudget at hB
         omega
-      · rcases newBlock_cases 0 true (blockBudget ms tp M) with h' | ⟨h1, h2, h3, h'⟩ <;> rw [h'] at h
+      · rcases newBlock_cases 0 true (min (blockBudget ms tp M) Consts.maximumBlockSize) with h' | ⟨h1, h2, h3, h'⟩ <;> rw [h'] at h
         · exact absurd h (internal_ne_ok _)
         · injection h with h
           cases h
